@@ -9,5 +9,5 @@ CONSTANTS
   SubDom <- SubFew8
   Targets = {1, 2}
   OtherInit <- NoOther
-  Classes <- AllClassesOv
+  Classes <- AllClasses
   EmitOps <- NoEmit
